@@ -1,6 +1,6 @@
 module verif/harness
 
-go 1.22
+go 1.23
 
 require (
 	github.com/anishathalye/porcupine v1.3.0
